@@ -306,9 +306,15 @@ func (bs *blockState) applyContractX(spec *FuncSpec, key string, args []Val, ins
 			}
 		}
 		mc, ok := e.closureOf[carg.C[0]]
-		if !found || !ok {
-			unsupp("call of %s: the function argument is not a closure defined here", key)
+		if !found {
+			unsupp("call of %s: no parameter %s", key, spec.Invokes)
 		}
+		if !ok {
+			// the function value is not a closure created by the caller (e.g. the caller's own parameter, handed
+			// on): the caller sees none of its captured state, there is nothing to preserve or to forget here
+			goto invokesDone
+		}
+		{
 		cfn := mc.Fn.(*ssa.Function)
 		cs := e.W.Specs.Funcs[funcKey(cfn)]
 		if cs == nil {
@@ -322,7 +328,8 @@ func (bs *blockState) applyContractX(spec *FuncSpec, key string, args []Val, ins
 			}
 			return m
 		}
-		pc := &Ctx{E: e, Vars: bind(bs.st), St: bs.st, where: e.key + " " + site + " invokes (before)"}
+		// the invariants are asserted in the state before the call (preSt), assumed in the state after it
+		pc := &Ctx{E: e, Vars: bind(preSt), St: preSt, where: e.key + " " + site + " invokes (before)"}
 		for i, r := range cs.Preserves {
 			bs.assertG(site+".invokes."+clauseName(r, i), "pre", pc.boolT(r.Expr), r.Src, ins)
 		}
@@ -341,7 +348,9 @@ func (bs *blockState) applyContractX(spec *FuncSpec, key string, args []Val, ins
 		for _, r := range cs.Preserves {
 			bs.assumeG(ac.boolT(r.Expr))
 		}
+		}
 	}
+invokesDone:
 	if spec.Applies != "" {
 		// higher-order dependency (DESIGN 3.5): the closure argument runs exactly once, here
 		var carg Val
